@@ -141,6 +141,34 @@ def run(res, tier, seed):
                         res.violation("oracle", f"{bad['problem']} on {m2!r} (converted after its look-alike {m!r})", dict(bad, converted_before=ast_json(ast)))
             except Exception as e:
                 res.count("lookalike_build_error:" + type(e).__name__)
+    # a named sub-proposition next to its own negation (negate() keeps an explicit id): B as the condition of an Imply / under Not
+    # and B itself elsewhere.  Validation has to reject such a model (one id, two definitions); if it accepts it, the
+    # model is a validated one and the property speaks about its polyhedron
+    for _ in range(60 if tier == "quick" else 600):
+        g = ModelGen(random.Random(rng.getrandbits(64)), int_leaves=0.0, big=0.0)
+        k = rng.choice([1, 1, 2, 3])
+        kids = [g.leaf() for _ in range(k)]
+        if len({c["id"] for c in kids}) < k:
+            continue
+        bid = rng.choice(["B", "k9", "N1"])
+        B = lambda: {"k": "AtLeast", "v": rng.choice([1, (k + 1) // 2, k]), "s": None, "ch": [dict(c) for c in kids], "id": bid}
+        b1 = B(); b2 = dict(b1, ch=[dict(c) for c in kids])
+        neg = {"k": "Imply", "ch": [b1, g.leaf()], "id": None} if rng.random() < 0.6 else {"k": "Not", "ch": [b1], "id": None}
+        ast = {"k": rng.choice(["All", "Any"]), "ch": [neg, {"k": rng.choice(["Any", "All"]), "ch": [b2, g.leaf()], "id": None}], "id": rng.choice(["T", None])}
+        try:
+            m = build(ast)
+            errs = m.errors()
+        except Exception as e:
+            res.count("negated_twin_error:" + type(e).__name__); continue
+        if errs:
+            res.count("negated_twin_rejected_by_validation"); continue
+        res.count("negated_twin_accepted_by_validation")
+        bad = complete_model(res, ast, m, rng, 0, 4096)
+        if not bad and solver_safe(m):
+            bad = sound_model(res, ast, m, 20 * cap)
+            bad = None if bad == "skipped" else bad
+        if bad:
+            res.violation("oracle", f"{bad['problem']} on {m!r} (accepted by errors(); a named sub-proposition occurs next to its own negation)", bad)
     # wide stream: leaves far beyond the 16-bit default (big-M sums beyond 32 bits); too large to enumerate, so only
     # completeness (no satisfying configuration is lost) and the correspondence apply
     for ast, m in gen_valid(rng, 60 if tier == "quick" else 600, res, depth_max=3, want=lambda m: plain(m), big=0.6, huge=0.7, int_leaves=0.7):
